@@ -5,6 +5,8 @@ PD-CLOSURE  the update rule is an instance of the fixpoint rule: every newly add
             through the same procedure and is written back to the source field
 PD-OWNER    the field handed to an inferred relation belongs to the class of the instance handed
             as its source
+PD-SUPERS   the predicate that selects the fields of super-properties accepts every proper ancestor of the
+            descriptor class (evaluated over a model hierarchy), not only the direct bases
 """
 from __future__ import annotations
 
@@ -222,11 +224,35 @@ def pd_owner(prog: Program) -> RuleResult:
 
 # instance expression -> the expression of its class that a field lookup must be made on
 _CLASS_OF = {
-    "self.source": {"self.source.instance_type", "source_type"},
+    "self.source": {"self.source.instance_type"},
     "self.target": {"self.target.instance_type"},
-    "role_taker": {"self.source_role_taker_association.target"},
     "self.target_role_taker": {"self.target_role_taker_association.target"},
 }
+
+
+def _class_exprs_of(inst: ast.expr, fn_node) -> Optional[set]:
+    """class expressions a field for this instance expression may be looked up on"""
+    t = src(inst)
+    if t in _CLASS_OF:
+        return _CLASS_OF[t]
+    if isinstance(inst, ast.Name):
+        # a local: the object reached through an association of the relation (getattr(<instance>, self.X_association.field...))
+        # belongs to that association's target class
+        seen, todo, out = set(), [inst.id], set()
+        while todo:
+            nme = todo.pop()
+            if nme in seen:
+                continue
+            seen.add(nme)
+            for n in ast.walk(fn_node):
+                if isinstance(n, ast.Assign) and any(isinstance(tg, ast.Name) and tg.id == nme for tg in n.targets):
+                    for x in ast.walk(n.value):
+                        if isinstance(x, ast.Attribute) and isinstance(x.value, ast.Name) and x.value.id == "self" and x.attr.endswith("_association"):
+                            out.add(f"self.{x.attr}.target")
+                        if isinstance(x, ast.Name) and x.id != nme:
+                            todo.append(x.id)
+        return out or None
+    return None
 
 
 def _field_origin(prog: Program, pdr, e: ast.expr, depth=0):
@@ -267,7 +293,9 @@ def _pairs_consistent(prog: Program, pdr, e: ast.expr, depth=0):
             if isinstance(n, ast.Return) and isinstance(n.value, ast.Tuple) and len(n.value.elts) == 2:
                 inst, fld = n.value.elts
                 org = _field_origin(prog, pdr, fld)
-                want = _CLASS_OF.get(src(inst))
+                if org in local:
+                    org = src(local[org])
+                want = _class_exprs_of(inst, f.node)
                 if want is None or org not in want:
                     problems.append(f"{src(inst)} paired with a field looked up on {org}")
         return True if not problems else "; ".join(map(str, problems))
@@ -282,7 +310,7 @@ def _gen_pair(prog, pdr, f, g: ast.GeneratorExp, local):
     org = _field_origin(prog, pdr, it)
     if org in local:
         org = src(local[org])
-    want = _CLASS_OF.get(inst)
+    want = _class_exprs_of(g.elt.elts[0], f.node)
     if want is None:
         return f"unknown instance expression {inst}"
     if org not in want:
@@ -290,5 +318,124 @@ def _gen_pair(prog, pdr, f, g: ast.GeneratorExp, local):
     return True
 
 
+class _Opaque:
+    """the association handed to the predicate: every attribute chain on it is opaque, type() of it is the model class T"""
+
+
+def _model_eval(e: ast.expr, env: Dict[str, object], T: type):
+    def ev(x):
+        if isinstance(x, ast.Constant):
+            return x.value
+        if isinstance(x, ast.Name):
+            if x.id in env:
+                return env[x.id]
+            if x.id in ("object", "type"):
+                return {"object": object, "type": type}[x.id]
+            raise AnalysisError(f"PD-SUPERS: free name {x.id} in the super-property predicate")
+        if isinstance(x, ast.Attribute):
+            b = ev(x.value)
+            if isinstance(b, _Opaque):
+                return b
+            if isinstance(b, type) and x.attr in ("__bases__", "__mro__", "__name__", "__qualname__", "__base__"):
+                return getattr(b, x.attr)
+            raise AnalysisError(f"PD-SUPERS: attribute {x.attr} is outside the model")
+        if isinstance(x, ast.Call):
+            if isinstance(x.func, ast.Name) and x.func.id == "type" and len(x.args) == 1:
+                a = ev(x.args[0])
+                return T if isinstance(a, _Opaque) else type(a)
+            if isinstance(x.func, ast.Name) and x.func.id == "issubclass" and len(x.args) == 2:
+                return issubclass(ev(x.args[0]), ev(x.args[1]))
+            if isinstance(x.func, ast.Name) and x.func.id == "isinstance" and len(x.args) == 2:
+                a = ev(x.args[0])
+                k = ev(x.args[1])
+                return issubclass(T, k) if isinstance(a, _Opaque) else isinstance(a, k)
+            if isinstance(x.func, ast.Attribute) and x.func.attr == "mro" and not x.args:
+                return ev(x.func.value).mro()
+            if isinstance(x.func, ast.Name) and x.func.id in ("any", "all") and len(x.args) == 1 and isinstance(x.args[0], ast.GeneratorExp) and len(x.args[0].generators) == 1:
+                g = x.args[0].generators[0]
+                vals = []
+                for item in ev(g.iter):
+                    env2 = dict(env)
+                    if not isinstance(g.target, ast.Name):
+                        raise AnalysisError("PD-SUPERS: tuple target in the predicate")
+                    env2[g.target.id] = item
+                    if all(_model_eval(c, env2, T) for c in g.ifs):
+                        vals.append(_model_eval(x.args[0].elt, env2, T))
+                return any(vals) if x.func.id == "any" else all(vals)
+            raise AnalysisError(f"PD-SUPERS: call {src(x)[:60]} is outside the model")
+        if isinstance(x, ast.Subscript):
+            b = ev(x.value)
+            if isinstance(x.slice, ast.Slice):
+                lo = ev(x.slice.lower) if x.slice.lower is not None else None
+                hi = ev(x.slice.upper) if x.slice.upper is not None else None
+                return b[lo:hi]
+            return b[ev(x.slice)]
+        if isinstance(x, ast.UnaryOp) and isinstance(x.op, ast.USub):
+            return -ev(x.operand)
+        if isinstance(x, ast.UnaryOp) and isinstance(x.op, ast.Not):
+            return not ev(x.operand)
+        if isinstance(x, ast.BoolOp):
+            if isinstance(x.op, ast.And):
+                return all(ev(v) for v in x.values)
+            return any(ev(v) for v in x.values)
+        if isinstance(x, ast.Compare):
+            left = ev(x.left)
+            for op, c in zip(x.ops, x.comparators):
+                right = ev(c)
+                ok = {ast.Is: lambda a, b: a is b, ast.IsNot: lambda a, b: a is not b, ast.Eq: lambda a, b: a == b, ast.NotEq: lambda a, b: a != b,
+                      ast.In: lambda a, b: a in b, ast.NotIn: lambda a, b: a not in b}.get(type(op))
+                if ok is None:
+                    raise AnalysisError("PD-SUPERS: comparison outside the model")
+                if not ok(left, right):
+                    return False
+                left = right
+            return True
+        if isinstance(x, (ast.Tuple, ast.List)):
+            return tuple(ev(v) for v in x.elts)
+        raise AnalysisError(f"PD-SUPERS: {type(x).__name__} is outside the model")
+
+    return ev(e)
+
+
+def pd_supers(prog: Program) -> RuleResult:
+    r = RuleResult("PD-SUPERS", "the fields of super-properties are those of every proper ancestor of the descriptor class", floor=3)
+    pd = prog.cls("property_descriptor.PropertyDescriptor")
+    f = prog.method(pd.qual, "get_fields_of_superproperties", inherited=False)
+    if f is None:
+        raise AnalysisError("PD-SUPERS: PropertyDescriptor.get_fields_of_superproperties vanished")
+    preds = [n for n in ast.walk(f.node) if isinstance(n, (ast.FunctionDef, ast.Lambda)) and n is not f.node]
+    if len(preds) != 1:
+        raise AnalysisError(f"PD-SUPERS: expected one selecting predicate in get_fields_of_superproperties, found {len(preds)}")
+    p = preds[0]
+    pre: List[ast.Assign] = []
+    if isinstance(p, ast.Lambda):
+        body, params = p.body, [a.arg for a in p.args.args]
+    else:
+        stmts = [st for st in p.body if not (isinstance(st, ast.Expr) and isinstance(st.value, ast.Constant))]
+        if not stmts or not isinstance(stmts[-1], ast.Return) or stmts[-1].value is None or \
+                not all(isinstance(st, ast.Assign) and len(st.targets) == 1 and isinstance(st.targets[0], ast.Name) for st in stmts[:-1]):
+            raise AnalysisError("PD-SUPERS: the selecting predicate is no longer straight-line assignments followed by one returned expression")
+        pre = stmts[:-1]
+        body, params = stmts[-1].value, [a.arg for a in p.args.args]
+    # model: Root <- Mid <- Leaf, and an unrelated property Other; the descriptor class asking is Leaf
+    Base = type("PropertyDescriptorModel", (), {})
+    Root = type("Root", (Base,), {})
+    Mid = type("Mid", (Root,), {})
+    Leaf = type("Leaf", (Mid,), {})
+    Other = type("Other", (Base,), {})
+    clsname = f.params[0]
+    expect = {"Mid (direct base)": (Mid, True), "Root (ancestor two levels up)": (Root, True), "Other (unrelated property)": (Other, False)}
+    for label, (T, want) in expect.items():
+        env = {clsname: Leaf, params[0]: _Opaque(), "PropertyDescriptor": Base}
+        for st in pre:
+            env[st.targets[0].id] = _model_eval(st.value, env, T)
+        got = bool(_model_eval(body, env, T))
+        r.check(got == want, f"PropertyDescriptor.get_fields_of_superproperties#{label.split(' ')[0].lower()}", site(f, p), src(body)[:120],
+                f"a field whose descriptor is {label} is {'selected' if want else 'not selected'}",
+                f"for the hierarchy Root <- Mid <- Leaf the predicate {'rejects' if want else 'accepts'} a field whose descriptor is {label}: "
+                + ("when the holder has no field for an intermediate level the super-property above the gap is never inferred" if want else "unrelated properties are inferred"))
+    return r
+
+
 def run(prog: Program, tier: str) -> List[RuleResult]:
-    return [pd_closure(prog), pd_owner(prog)]
+    return [pd_closure(prog), pd_owner(prog), pd_supers(prog)]
